@@ -10,6 +10,7 @@ import track_checks
 import reader_checks
 import config_checks
 import render_checks
+import feed_checks
 
 
 def decode_check(prop, tier, seed, rep):
@@ -27,6 +28,7 @@ for _p in ("C12", "C13", "C14", "C15"):
 CHECKS["C19"] = reader_checks.run
 CHECKS["C20"] = config_checks.run
 CHECKS["C11"] = render_checks.run
+CHECKS["C16"] = feed_checks.run
 
 
 def setup():
